@@ -55,7 +55,7 @@ def r2(cx, h):
                  "%d path(s) from a parsed request to the %s contain %d dispatch calls (expected exactly 1), e.g. blocks %s" % (len(ps), end, c, sample[:40]),
                  note_ok="%d paths with exactly one dispatch" % len(ps), witness={"path": sample})
     # the parse-error edge: no dispatch, no Call::new
-    r = cfg.reach(err_edge[2])
+    r = cfg.after(err_edge)
     hit = [b for b in r if b in disp_blocks or b in {t.bb for t in h.call_news}]
     # err path must not come back to the loop
     loops = [b for b in r if b in ru_blocks]
@@ -82,7 +82,7 @@ def r2b(cx, h):
                 err_edges.append(variant_edge(term, 1)); break
         if not err_edges:
             cx.bad("C01.R2", key, site, "the result of the dispatch is never examined: an interface that failed without replying leaves the request unanswered while the connection stays open"); continue
-        r = cfg.reach(err_edges[0][2])
+        r = cfg.after(err_edges[0])
         again = sorted(b for b in ru_blocks if b in r)
         okret = [s.bb for s in h.ok_assigns if s.bb in r]
         cx.check(not again and not okret, "C01.R2", key, site,
@@ -112,7 +112,7 @@ def r4(cx):
         shut = {x.bb for x in body.calls("=shutdown")}
         rets = cfg.returns()
         passes = cfg.must_pass(err[2], rets, shut)
-        again = t.bb in cfg.reach(err[2])
+        again = t.bb in cfg.after(err)
         cx.check(passes and not again, "C01.R4", key, site,
                  ("a path from handle()'s Err edge reaches the worker's return without Stream::shutdown; " if not passes else "") +
                  ("the Err edge can re-enter handle() on the same connection" if again else ""),
